@@ -221,6 +221,14 @@ def apply_unary(S, x, name, args, inplace=False):
         return x.abs()
     if name == "get_sparsity":
         return x.get_sparsity()
+    if name in ("qr_product", "svd_product"):
+        from . import stubs
+        stubs.install()
+        if name == "qr_product":
+            q_, r_ = sr.linalg.qr(x)
+            return q_ @ r_
+        u_, s_, v_ = sr.linalg.svd(x)
+        return u_ @ v_.multiply_diagonal(s_, 0)
     if name in ("qr", "svd", "svd_truncated"):
         from . import stubs
         stubs.install()
